@@ -10,16 +10,18 @@
    to Reads until it is used up) and two goroutines.  The model follows the
    code at the grain of its blocking operations:
 
-     readLoop    RlNext      ws.NextReader returns a data message, skips a
-                             control frame, or fails (close frame, EOF, closed socket)
+     readLoop    RlFrame     ws.NextReader returns a data message, skips a control
+                             frame, or fails on a close frame / the end of the stream
+                 RlSockFail  NextReader fails: the socket was closed by ws.Close()
+                 RlSockReset NextReader or the message reader fails: connection reset
                  RXfer(r,n)  pipe-1 rendezvous: n bytes of the message being copied
                              go to the parked Read of application goroutine r
                  RlCopyFail  the pipe-1 write fails (read side closed by Close)
      writeLoop   WXfer(w)    pipe-2 rendezvous: writeLoop's Read (buffer of Chunk
                              bytes) takes the next piece of the Write of goroutine w
                  WlReadFail  pipe-2 Read fails (write side closed by Close)
-                 WlSend      NextWriter + Write + Close = one binary message on the
-                             socket, or an error (close frame already sent, socket dead)
+                 WlSendOK | WlSendFail   NextWriter + Write + Close = one binary message on
+                             the socket, or an error (close frame already sent, socket dead)
      Write(b)    WCall WCheck WAcquire (WXfer)* WDone | WFail       (io.Pipe.Write:
                              done-check, wrMu, one rendezvous per piece, at least one)
      Read(b)     RCall RCheck (RXfer | RFail)                       (io.Pipe.Read)
@@ -49,17 +51,26 @@
      a message into pipe writes is chosen by gorilla, bufio and TCP);
    * the concrete error values: the model knows "nil", "eof" (io.EOF) and "err";
    * the return value of every Close but the first to reach ws.Close();
-   * (nothing about select: a rendezvous on an unbuffered channel needs one
-     party parked, closing `done` wakes every parked party and nobody parks
-     afterwards, so no hand-over happens once a pipe's done channel is closed);
    * what the peer still receives after the local side closed the socket while
-     inbound data was unread or arriving (TCP answers with RST, which may
-     overtake queued data: variable rst), and anything the peer sees after it
-     cut the connection itself;
+     inbound data was unread or arriving (TCP answers with RST and drops what it
+     has not transmitted: variable rst), and anything the peer sees after it cut
+     the connection itself;
+   * symmetrically, how much of what the peer wrote before it cut the
+     connection still arrives when the peer closed its socket with unread data
+     or the local side writes to the closed socket afterwards (variable irst;
+     observed on loopback: 61 440 of 102 768 bytes, then ECONNRESET).  What does
+     arrive is a prefix, and it ends with an error, never with io.EOF;
    * ping/pong contents; a blocked socket write (the peer is assumed to keep
      reading or the kernel to buffer: WlSend always completes);
    * the message type the peer uses for data: text and binary are both
-     delivered (the code says so; gorilla never returns another type). *)
+     delivered (the code says so; gorilla never returns another type).
+
+   Not a don't-care but a fact used by the model: a rendezvous on an unbuffered
+   channel needs one party parked, closing a pipe's `done` channel wakes every
+   parked party and nobody parks afterwards, so no hand-over happens once a
+   pipe is closed (no RXfer after Done1, no WXfer after Done2).  A first version
+   offered both outcomes of such a "race"; TLC then produced a torn Write that
+   the real pipe cannot produce. *)
 EXTENDS Integers, Sequences, FiniteSets, TLC
 
 CONSTANTS
@@ -76,6 +87,8 @@ CONSTANTS
   MaxMsg,         \* frames sent by the peer                        (guard)
   PipeWriteLock,  \* TRUE = io.Pipe serialises whole Writes with wrMu (as the code is);
                   \* FALSE exists only to show that NoTear depends on it (vacuity guard)
+  C2ClosesPipe,   \* TRUE = Close closes the write pipe (as the code does); FALSE exists only to show that
+                  \* NoLeak / NoLeakAtRest notice a writeLoop that is never told to stop (vacuity guard)
   History,        \* TRUE: keep the histories acc and sentlog in full (the outbound invariants are stated on
                   \* them).  FALSE (trace validation of long executions): acc is not kept and sentlog holds
                   \* only what the peer has not received yet - same behaviours, smaller states
@@ -273,7 +286,7 @@ C1(c) ==          \* conn.Reader.(*io.PipeReader).Close()
   /\ UNCHANGED <<win, psent, pstate, pcode, nmsg, rl, rmsg, p1w, rpos, rd, nr, outV, werr, tcp, rst, irst>>
 
 C2(c) ==          \* conn.Writer.(*io.PipeWriter).Close()
-  /\ cl[c].pc = "c2" /\ p2w' = TRUE /\ cl' = [cl EXCEPT ![c].pc = "c3"]
+  /\ cl[c].pc = "c2" /\ p2w' = (p2w \/ C2ClosesPipe) /\ cl' = [cl EXCEPT ![c].pc = "c3"]
   /\ UNCHANGED <<inV, wr, nw, wnext, wlock, wl, wchunk, p2r, acc, sentlog, nrecv, pend, werr, tcp, rst, irst>>
 
 C3(c) ==          \* WriteControl(CloseMessage): error ignored
